@@ -1078,12 +1078,12 @@ func (r *Run) sliceOp(fr *frame, in *ssa.Slice) Value {
 
 // sliceArr returns the array value (scalar or generic) backing s.
 func (r *Run) sliceArr(s SliceVal) Value {
-	r.raceRead(s.slot)
+	r.raceAccess(s.slot, append(append([]pathElem(nil), s.path...), pathElem{idx: r.ctx.Var("race_any", 64)}), false)
 	return r.walk(s.slot.v, s.path)
 }
 
 func (r *Run) setSliceArr(s SliceVal, a Value) {
-	r.raceWrite(s.slot)
+	r.raceAccess(s.slot, append(append([]pathElem(nil), s.path...), pathElem{idx: r.ctx.Var("race_any", 64)}), true)
 	s.slot.v = r.update(s.slot.v, s.path, a)
 }
 
